@@ -349,6 +349,24 @@ def subst(f, pairs, rule):
         f.apply(edits, p.get("rule", rule))
 
 
+def r16_format(f):
+    """R16: `format!(..)` -> `fmt_opaque()` (an arbitrary String); the arguments must be side-effect free"""
+    while True:
+        c = f.code
+        hit = None
+        for i, t in enumerate(c):
+            if t.kind == "macro" and t.text == "format!" and c[i + 1].text == "(":
+                hit = i
+                break
+        if hit is None:
+            return
+        i = hit
+        close = f.br[i + 1]
+        if not _macro_args_pure(f, i + 1, close):
+            raise RuleError("R16: format! with a possibly effectful argument at line %d" % c[i].line)
+        f.apply([(c[i].pos, c[close].end, "fmt_opaque()")], "R16")
+
+
 RULES = {
     "R1": r1_drop_tracing,
     "R3": r3_r4_for_heads,
@@ -357,8 +375,9 @@ RULES = {
     "R6": r5_r6_for_each,
     "R7": r7_mut_params,
     "R13": r13_continue,
+    "R16": r16_format,
 }
-ORDER = ["R1", "R7", "R5", "R6", "R3", "R4", "R13"]
+ORDER = ["R1", "R16", "R7", "R5", "R6", "R3", "R4", "R13"]
 
 
 def rewrite(text, origin, rules, substs=None):
